@@ -159,7 +159,7 @@ C06_FATAL = {"split:ok", "split:shares", "split:commit", "split:vs", "split:vk",
              "kp_from_ss:vk", "kp_from_ss:min", "reconstruct:ok", "reconstruct:key", "*:panic"}
 
 # ------------------------------------------------------------------------ C03
-C03_INV = ["InvRefuse", "InvNoForgery", "Emit"]
+C03_INV = ["InvRefuse", "InvNoForgery", "InvNoThresholdlessRepair", "Emit"]
 
 
 def c03_slices(tier):
@@ -190,7 +190,7 @@ def c03_secrecy(ctx):
         lib.assume_stage(ctx, name, "C03Secrecy", c)
 
 
-C03_FATAL = {"sign:ok", "aggregate:ok", "verify:ok", "reconstruct:ok", "reconstruct:key", "split:ok", "split:shares",
+C03_FATAL = {"repair3:ok", "repair1:ok", "sign:ok", "aggregate:ok", "verify:ok", "reconstruct:ok", "reconstruct:key", "split:ok", "split:shares",
              "split:commit", "split:rng_unused", "split:rng_overrun", "*:panic"}
 
 # ------------------------------------------------------------------------ C07
